@@ -81,8 +81,12 @@ class ScriptedGenerator(np.random.Generator):
 
     # ---- choice
     def choice(self, a, size=None, replace=True, p=None, axis=0, shuffle=True):
-        if size is not None:
-            raise HarnessError("choice with size requested")
+        if size is not None and size != ():
+            # a batch of picks is the same number of single picks made one after the other (with replacement)
+            if not replace:
+                raise HarnessError("choice without replacement requested")
+            n_ = int(np.prod(size))
+            return np.array([self.choice(a, p=p) for _ in range(n_)]).reshape(size)
         if isinstance(a, (int, np.integer)):
             arr = np.arange(int(a))
         else:
@@ -161,6 +165,18 @@ class ScriptedGenerator(np.random.Generator):
         arr.fill(int(z))
         return arr
 
+    def integers(self, low, high=None, size=None, dtype=np.int64, endpoint=False):
+        """a uniform pick among integers: one choice point with equal probabilities"""
+        if high is None:
+            low, high = 0, low
+        hi = int(high) + (1 if endpoint else 0)
+        vals = np.arange(int(low), hi)
+        if len(vals) > 64:
+            raise HarnessError(f"integers over {len(vals)} values requested")
+        if size is None or size == ():
+            return int(self.choice(vals))
+        return self.choice(vals, size=size).astype(dtype)
+
     # ---- everything else is an unknown request
     def _unknown(self, name):
         def f(*a, **k):
@@ -175,7 +191,7 @@ class ScriptedGenerator(np.random.Generator):
 
 
 _FORBIDDEN = {
-    "integers", "bytes", "shuffle", "permutation", "permuted", "beta", "binomial", "chisquare", "dirichlet",
+    "bytes", "shuffle", "permutation", "permuted", "beta", "binomial", "chisquare", "dirichlet",
     "exponential", "f", "gamma", "geometric", "gumbel", "hypergeometric", "laplace", "logistic", "lognormal",
     "logseries", "multinomial", "multivariate_hypergeometric", "multivariate_normal", "negative_binomial",
     "noncentral_chisquare", "noncentral_f", "pareto", "power", "rayleigh", "standard_cauchy",
